@@ -52,6 +52,8 @@ ASSUMPTIONS = [
     "atomicity of single set/dict/list operations under the GIL and of threading.Lock",
     "OS preemption inside C code, timeouts, sleep and GC-driven __del__ / dead WeakMethod are not modelled",
     "one thread per endpoint; a socket key is operated by its owner thread only",
+    "runs in one process are separated by reset_socket_hub(); the harness asserts after every reset that the hub the "
+    "sockets use (ThreadSocket._SOCKET_HUB) is empty, and judges two-run histories by the oracle on run 2 alone",
     "message payloads are abstract identities in the model; the harness maps id 0 to the empty string (falsy payload), "
     "other ids to 'm<id>' / StructuredMessage(payload=id)",
     "callback theorems: the callback key is never connected without callbacks and never disconnected (CbOnlyProg)",
@@ -129,6 +131,17 @@ def run(ctx):
         except H.Stuck as e:
             res.failures.append({"what": "harness could not drive the real hub: %s" % e, "kf": None,
                                  "input": {"progs": progs, "schedule": sched}})
+    # ---- lifecycle across runs in one process: leftovers of run 1, reset_socket_hub(), run 2 with the same names
+    try:
+        run2_cases, two_fails = H.two_run_histories()
+        corpus.extend(run2_cases)
+        for f in two_fails:
+            res.failures.append({"what": f["what"], "kf": None,
+                                 "input": {"progs": f["progs"], "previous_run": f["previous_run"], "key": f["key"]}})
+        res.count("two-run-histories", len(run2_cases))
+    except H.Stuck as e:
+        res.failures.append({"what": "two-run history could not be driven on the real hub: %s" % e, "kf": None,
+                             "input": "two_run_histories"})
     from vlib import common
     sm = H._new_summary()
     drv = common.Driver()
@@ -141,6 +154,7 @@ def run(ctx):
                 sm["failures"].append({"what": f["what"], "kf": None,
                                        "input": {"progs": c["progs"], "schedule": c["schedule"], "key": f["key"]}})
     drv.close()
+    H._report_resets(sm)
     sm["nontrivial"] = sorted(sm["nontrivial"])
     _merge(res, sm, "hub.lockstep.corpus")
 
